@@ -46,4 +46,17 @@ Ordered  == \A i \in 1..(Len(Kept(cs)) - 1) : Kept(cs)[i].cr >= Kept(cs)[i + 1].
 \* "end and start lines exactly overlap" exception, cf. finding C06-split-on-shared-line) or they weigh the same
 NoHeavierInside == \A i, j \in 1..Len(Kept(cs)) :
    (i # j /\ CContains(Kept(cs)[i], Kept(cs)[j]) /\ Kept(cs)[j].sl # Kept(cs)[i].el) => Kept(cs)[i].wr = Kept(cs)[j].wr
+
+(* C01 with copies that share physical lines.  The copies of a file are full-confidence candidates with pairwise disjoint
+   token spans whose lines follow their tokens (Copies).  The loop works on lines, not tokens: *)
+TokDisjoint(a, b) == a.et < b.st \/ b.et < a.st
+Copies == /\ \A c \in cs : c.c4 = 4
+          /\ \A a, b \in cs : a # b => TokDisjoint(a, b) /\ (a.et < b.st => a.el <= b.sl)
+AllKept == \A c \in cs : \E i \in 1..Len(Kept(cs)) : Kept(cs)[i] = Full(c)
+\* holds: copies none of which has its lines inside another copy's lines are all reported, although their first and last
+\* lines may be shared (the "start line = end line" exception)
+TouchingCopiesKept == (Copies /\ \A a, b \in cs : a # b => ~CContains(Full(a), Full(b))) => AllKept
+\* does NOT hold (V2RetainShared.cfg, expected violation; open finding C01-copy-inside-lines-of-heavier-copy): a short
+\* copy that shares its only line with the first line of a longer copy is inside that copy's line range and is dropped
+CopiesKept == Copies => AllKept
 =============================================================================
